@@ -78,7 +78,7 @@ func runChildOnce(h *History) *childResult {
 	defer os.Remove(path)
 	cctx, cancel := context.WithTimeout(context.Background(), 180*time.Second)
 	defer cancel()
-	cmd := exec.CommandContext(cctx, self, "-child", path)
+	cmd := hx.Supervised(exec.CommandContext(cctx, self, "-child", path))
 	cmd.Env = append(os.Environ(), "GOMEMLIMIT=1GiB", "GOTRACEBACK=single", "GOMAXPROCS=2")
 	var out, errb bytes.Buffer
 	cmd.Stdout, cmd.Stderr = &out, &errb
